@@ -65,7 +65,7 @@ def check(ctx, report):
         report.error('C16.R1: SshKeyExchangeInit._hassh vanished')
     else:
         report.touch(h)
-        hassh_tabulation(report, h, hs)
+        hassh_tabulation(report, h, hs, ctx.thorough)
     # ---- R2
     pk = model.cls('SshPublicKeyBase')
     fp = pk.methods.get('fingerprints')
@@ -135,7 +135,7 @@ def check(ctx, report):
         report.error('C16.R3: only %d host key classes found' % n3)
 
 
-def hassh_tabulation(report, h, hs):
+def hassh_tabulation(report, h, hs, thorough=False):
     """_hassh evaluated statement by statement (sa.miniexec) over name-list shapes -- empty lists in every position,
     single names, known (enum member, rendered through .value.code) and unknown (plain string) names mixed -- and
     compared with the definition: MD5 over the lists joined by ';', names joined by ',', lower-case hex"""
@@ -178,7 +178,7 @@ def hassh_tabulation(report, h, hs):
     n = 0
     try:
         for combo in itertools.product(range(len(pools)), repeat=4):
-            if n >= 200 and 0 not in combo:
+            if not thorough and n >= 200 and 0 not in combo:
                 continue
             n += 1
             report.count('C16.R1')
